@@ -29,7 +29,10 @@ LEVEL_TEXT = ('Theorems (Props/C09.v): the reference decoder accepts exactly the
               'predicts dims/names/data/TFLAG/ETFLAG, writer model predicts the bytes written, Coq decoder on the writer output). '
               'ONE3D FAMILY (one3d / humidity / vertical_diffusivity; Model/One3d.v, Proofs/One3dProofs.v; Memmap reader model with the translated record_items and time_steps expressions, reshapes / first-stamp-change / memmap size rules hand-modelled): C09_one3d_dec_enc, C09_one3d_reader_presents_content (two or more steps, stamp changes), '
               'C09_one3d_reader_whole_file_exact (on valid files the reader succeeds iff there are >= 2 steps), C09_one3d_unchanged_stamp_raises, '
-              'C09_one3d_single_step_refuted (vm_compute witness = finding met-single-step, region 11). Tie H: constructor OD of Corr/C09.v.')
+              'C09_one3d_single_step_refuted (vm_compute witness = finding met-single-step, region 11). Tie H: constructor OD of Corr/C09.v. '
+              'TEMPERATURE and HEIGHT/PRESSURE (Model/TempHp.v, Proofs/TempHpProofs.v; layered record files over the One3d codec; both Memmap readers hand-modelled incl. the for-loop fall-through, the lazy reshapes and the marker check): C09_temperature_dec_enc, C09_heightpres_dec_enc, C09_temperature_reader_presents_content, '
+              'C09_heightpres_reader_presents_content, C09_temperature_single_step_refuted, C09_heightpres_single_step_refuted (region 11). '
+              'Tie H: constructors TD / HD of Corr/C09.v.')
 LEVEL_NOTE = ('Trusted: Coq kernel+vm_compute, py2coq, the harness. CAMx met formats, landuse and bpch: record framing proved generically, layouts compared by '
               'correspondence only (see evidence distribution).')
 TECHNIQUE = 'Coq proof (codec round trip, framing soundness, reader-model refinement) + translation from source + differential correspondence'
@@ -177,7 +180,7 @@ _impl_uamiv = impl
 def impl(case):  # noqa: F811
     if MC.is_lb(case):
         return MC.run_lb(case)
-    if MC.is_o3(case):
+    if MC.is_layered(case):
         return MC.run_o3(case)
     if case['kind'].startswith('met-'):
         return MC.run_met(case)
@@ -190,8 +193,8 @@ _coq_uamiv = coq_term
 def coq_term(case, obs):  # noqa: F811
     if MC.is_lb(case):
         return None if 'raises' in obs else MC.lb_term_read(case, obs)
-    if MC.is_o3(case):
-        return None if 'raises' in obs else MC.o3_term(case, obs)
+    if MC.is_layered(case):
+        return None if 'raises' in obs else MC.layered_term(case, obs)
     if case['kind'].startswith('met-'):
         if 'raises' in obs:
             return None
